@@ -355,6 +355,10 @@ func writeComputedFieldExpression(w *formatting.IndentedWriter, expression dsl.E
 				fmt.Fprintf(w, "([](std::string dim_name) {\n")
 				w.Indented(func() {
 					for i, d := range *dims {
+						if d.Name == nil {
+							// not every dimension needs to have a name
+							continue
+						}
 						fmt.Fprintf(w, "if (dim_name == \"%s\") return %d;\n", *d.Name, i)
 					}
 					fmt.Fprintf(w, "throw std::invalid_argument(\"Unknown dimension name: \" + dim_name);\n")
